@@ -591,6 +591,10 @@ def prefilter_lines(tier):
     for b0 in range(256):
         for ln in lens:
             for ht in (hts if ln >= 14 else [0]):
+                if ln < 14:
+                    # primer: leaves 22 / 1 at offsets 0 / 13 of the receive buffer, so that a
+                    # read past a short datagram sees a ClientHello
+                    out.append((bytes([0]) + bytes([0xfe, 0xfd]) + bytes(10) + bytes([1]) + bytes(11)).hex())
                 d = bytearray(ln)
                 if ln > 0:
                     d[0] = b0
